@@ -67,10 +67,12 @@ J gen(uint64_t seed, bool thorough) {
     J o = J::obj(); o["name"] = c.name; o["periodic"] = c.periodic(); o["base"] = c.config();
     o["width"] = strtod(num(c.width).c_str(), nullptr); o["lower"] = strtod(num(c.lower).c_str(), nullptr); o["upper"] = strtod(num(c.upper).c_str(), nullptr);
     bool edges = !c.periodic() && r.chance(0.45);
+    o["hard_lo"] = !c.periodic() && r.chance(0.25); o["hard_hi"] = !c.periodic() && r.chance(0.25);   // hard boundaries say nothing about binning
     o["edges"] = edges; o["t_lo"] = (long long)r.range(1, T); o["t_hi"] = (long long)r.range(1, T); o["nbins"] = (long long)r.range(2, 8);
     jcv.push(o); sig += c.kind.substr(0, 4) + (edges ? "E" : "") + "+";
   }
   sc["cvinfo"] = jcv;
+  sc["custom_grid"] = !vector_mode && r.chance(0.25);   // the histogram brings its own grid, one bin short of the variables' on either side
   sc["out_freq"] = (long long)(r.chance(0.5) ? 0 : r.range(1, 10));
   sc["dx"] = r.chance(0.3);
   J ops = J::arr();
@@ -127,9 +129,19 @@ RunResult run(J const &plan) {
     d.n = (int)std::floor((d.upper - d.lower) / d.width + 0.5);
     std::string base = o.at("base").as_str();
     size_t p = base.find("  width"); size_t q = base.find('\n', p);
-    base.replace(p, q - p, "  width " + full(d.width) + "\n  lowerBoundary " + full(d.lower) + "\n  upperBoundary " + full(d.upper));
+    base.replace(p, q - p, "  width " + full(d.width) + "\n  lowerBoundary " + full(d.lower) + "\n  upperBoundary " + full(d.upper) +
+                 (o.at("hard_lo").as_bool() ? "\n  hardLowerBoundary on" : "") + (o.at("hard_hi").as_bool() ? "\n  hardUpperBoundary on" : ""));
     cvtext += base; names += (i ? " " : "") + d.name;
     dims.push_back(d);
+  }
+  std::string custom_grid;
+  if (sc.at("custom_grid").as_bool()) {
+    bool ok = true; for (auto const &d : dims) if (d.periodic || d.n < 3) ok = false;
+    if (ok) {
+      std::string ws, ls, us;
+      for (auto &d : dims) { d.lower = d.lower + d.width; d.upper = d.upper - d.width; d.n -= 2; ws += " " + full(d.width); ls += " " + full(d.lower); us += " " + full(d.upper); d.n = (int)std::floor((d.upper - d.lower) / d.width + 0.5); }
+      custom_grid = "  histogramGrid {\n    width" + ws + "\n    lowerBoundary" + ls + "\n    upperBoundary" + us + "\n  }\n";
+    }
   }
   if (vector_mode) {
     double lo = vec_seen[0], hi = vec_seen[0]; for (double v : vec_seen) { lo = std::min(lo, v); hi = std::max(hi, v); }
@@ -143,6 +155,7 @@ RunResult run(J const &plan) {
   }
   long out_freq = (long)sc.at("out_freq").as_int();
   std::string hist = "histogram {\n  name h\n  colvars " + names + "\n  outputFile h.dat\n" + (sc.at("dx").as_bool() ? "  outputFileDX h.dx\n" : "") + (out_freq ? "  outputFreq " + std::to_string(out_freq) + "\n" : "");
+  hist += custom_grid;
   if (vector_mode) { hist += vec_grid; hist += "  gatherVectorColvars on\n"; if (sc.at("use_weights").as_bool()) { hist += "  weights"; for (double w : weights) hist += " " + num(w); hist += "\n"; } }
   hist += "}\n";
   std::string conf = config + cvtext + hist;
@@ -273,7 +286,7 @@ RunResult run(J const &plan) {
   res.counters["probe.file_bins_checked"] += file_bins;
   res.nontrivial = steps_compared > 0 && eligible_in_range > 0;
   res.class_hash = fnv_str(sc.at("template").as_str(), 15);
-  res.features = std::string(vector_mode ? "vector" : "") + std::to_string(nd) + "d" + (edge_dims ? "+edges" : "") + (restarts ? "+restart" : "") + (ec.binary_state ? "+binary" : "");
+  res.features = std::string(vector_mode ? "vector" : "") + std::to_string(nd) + "d" + (custom_grid.empty() ? "" : "+customgrid") + (edge_dims ? "+edges" : "") + (restarts ? "+restart" : "") + (ec.binary_state ? "+binary" : "");
   uint64_t fp = 1469598103934665603ULL; fp = fnv_u64((uint64_t)eligible_in_range, fp); fp = fnv_u64((uint64_t)on_edge, fp);
   res.fingerprint = fnv_u64(fp, res.fingerprint);
   return res;
